@@ -7,6 +7,17 @@ From PM Require Import Lib.Py Spec.LegalKey Model.Lits Model.World Model.Readers
 Import ListNotations.
 Open Scope Z_scope. Open Scope world_scope.
 
+(* what the serializer objects are built from: pickle and the compression codec are oracles (functions the model does not look
+   into), together with the pickle protocol and CompressedSerde's min_compress_len.  The executable model is run with
+   no_oracles (nothing picklable is ever stored in the correspondence runs; the codec is the identity). *)
+Record oracles := {
+  o_dumps : Z -> dyn -> list Z; o_loads : list Z -> exc dyn;
+  o_compress : list Z -> list Z; o_decompress : list Z -> exc (list Z);
+  o_pickle_version : Z; o_min_compress_len : Z }.
+Definition no_oracles (min_len : Z) : oracles :=
+  {| o_dumps := fun _ _ => []; o_loads := fun _ => Raise ValueError; o_compress := fun b => b; o_decompress := fun b => Ok b;
+     o_pickle_version := 0; o_min_compress_len := min_len |}.
+
 Record cfg := {
   c_tcp : bool;            (* server is a (host, port) tuple; false: UNIX socket path *)
   c_naddr : Z;             (* number of entries getaddrinfo returns *)
@@ -16,7 +27,8 @@ Record cfg := {
   c_default_noreply : bool;
   c_unicode : bool;        (* allow_unicode_keys *)
   c_enc : encoding;        (* encoding *)
-  c_serde : Z;             (* 0: none (LegacyWrappingSerde defaults); 1: PickleSerde restricted to bytes/str/int *)
+  c_serde : Z;             (* 0: none (LegacyWrappingSerde defaults); 1: PickleSerde; 2: CompressedSerde around PickleSerde *)
+  c_orc : oracles;         (* pickle / codec oracles and their parameters (used when c_serde <> 0) *)
   h_fetch : exn; h_store : exn; h_misc : exn    (* widest class caught by the cleanup handler of each exchange path *)
 }.
 
@@ -52,9 +64,15 @@ Definition raise_errors (line : list Z) : exc unit :=
   else if prefixb L_SERVER_ERROR line then Raise MemcacheServerError
   else Ok tt.
 Definition serde_serialize (c : cfg) (v : dyn) : exc (dyn * Z) :=
-  if c_serde c =? 0 then Ok (v, 0) else serialize (fun _ _ => []) 0 v.
+  let o := c_orc c in
+  if c_serde c =? 0 then Ok (v, 0)
+  else if c_serde c =? 2 then c_serialize (o_dumps o) (o_compress o) (o_min_compress_len o) (o_pickle_version o) v
+  else serialize (o_dumps o) (o_pickle_version o) v.
 Definition serde_deserialize (c : cfg) (v : dyn) (flags : Z) : exc dyn :=
-  if c_serde c =? 0 then Ok v else deserialize (fun _ => Raise ValueError) v flags.
+  let o := c_orc c in
+  if c_serde c =? 0 then Ok v
+  else if c_serde c =? 2 then c_deserialize (o_loads o) (o_decompress o) v flags
+  else deserialize (o_loads o) v flags.
 
 (* insertion-ordered dict with Python's key equality *)
 Fixpoint dict_set (d : list dyn) (k v : dyn) : list dyn :=
